@@ -7,6 +7,7 @@ package interp
 
 import (
 	"fmt"
+	"os"
 	"go/types"
 	"sync"
 )
@@ -43,6 +44,8 @@ type pendingOp struct {
 	rw         *rwState
 
 	site string // where the goroutine is parked (for deadlock reports)
+	obj  interface{} // sync object the segment after a plain yield point touches first
+	wild bool        // yield point dependent with everything (vYield, Gosched)
 
 	// results
 	chosen   int
@@ -62,6 +65,7 @@ type channel struct {
 }
 
 type goroutine struct {
+	seq  int // number of parks so far
 	id   int
 	name string
 	wake chan struct{}
@@ -189,6 +193,7 @@ func (s *scheduler) exit(g *goroutine) {
 // returns when g is scheduled again with op completed.
 func (s *scheduler) park(op *pendingOp) {
 	g := s.cur
+	g.seq++
 	g.op = op
 	s.dispatch(g)
 	if s.cur != g {
@@ -406,8 +411,19 @@ func (s *scheduler) dispatch(from *goroutine) {
 	if len(mine) == 0 || bound < 0 || s.preemptions < bound {
 		alts = append(alts, others...)
 	}
-	k := s.ps.chooseFrom(alts)
+	infos := make([]TInfo, len(alts))
+	for i, a := range alts {
+		infos[i] = s.info(ts[a])
+	}
+	k := alts[s.ps.chooseSched(infos)]
 	t := ts[k]
+	if s.ps.eng.Cfg.Verbose {
+		d := ""
+		for _, a := range alts {
+			d += fmt.Sprintf(" g%d:%s", ts[a].g.id, ts[a].kind)
+		}
+		fmt.Fprintf(os.Stderr, "dispatch from g%d: alts[%s] -> g%d:%s\n", from.id, d, t.g.id, t.kind)
+	}
 	if len(mine) > 0 && !(t.g == from || t.partner == from) {
 		s.preemptions++
 	}
@@ -475,7 +491,9 @@ func (s *scheduler) execute(t transition) {
 		ch = op.ch
 		sendVal = op.val
 	}
-	op.chosen = t.caseIdx
+	if t.kind != "resume" {
+		op.chosen = t.caseIdx
+	}
 	switch t.kind {
 	case "resume":
 	case "default":
@@ -604,4 +622,53 @@ func panicText(r interface{}) string {
 		return r.String()
 	}
 	return fmt.Sprintf("%v", r)
+}
+
+
+// info describes transition t for the sleep-set machinery.
+func (s *scheduler) info(t transition) TInfo {
+	ti := TInfo{G: t.g.id, Seq: t.g.seq, Case: t.caseIdx, PG: -1}
+	if t.partner != nil {
+		ti.PG, ti.PSeq, ti.PCase = t.partner.id, t.partner.seq, t.pcase
+	}
+	op := t.g.op
+	add := func(p interface{}) {
+		if p != nil {
+			ti.Objs = append(ti.Objs, s.ps.objID(p))
+		}
+	}
+	switch op.kind {
+	case opResume:
+		if op.wild {
+			ti.Wild = true
+		}
+		if op.obj != nil {
+			add(op.obj)
+		}
+	case opIdle:
+		ti.Wild = true
+	case opSend, opRecv:
+		if op.ch != nil {
+			add(op.ch)
+		}
+	case opSelect:
+		if t.caseIdx >= 0 {
+			if c := op.cases[t.caseIdx].ch; c != nil {
+				add(c)
+			}
+		} else {
+			for _, c := range op.cases {
+				if c.ch != nil {
+					add(c.ch)
+				}
+			}
+		}
+	case opLock, opOnce:
+		add(op.lockCell)
+	case opRLock, opWLock:
+		add(op.lockCell)
+	case opWGWait:
+		add(op.wgCell)
+	}
+	return ti
 }
